@@ -304,6 +304,7 @@ def run_case(spec, ctx):
         qn = "moderate" if r < 0.5 else ("common" if r < 0.75 else "extreme")
         states.append(("deformed/nonunit:" + qn, R.perturbed_state(rng, amp=float(rng.uniform(0.05, 0.5)), qnorm=qn)))
         states.append(("slightly deformed/unit", R.perturbed_state(rng, qnorm="unit", tiny=float(loguniform(rng, 1e-8, 1e-2)))))
+        states.append(("deformed/nonunit:tiny", R.perturbed_state(rng, amp=float(rng.uniform(0.05, 0.5)), qnorm="tiny")))
         nontrivial = False
         for label, q_rod in states:
             ctx.cls("state:" + label)
